@@ -17,11 +17,11 @@ Context {F : Type} `{Num F} {A : Type}.
 Record bstate := { b_w : list F; b_Xw : list F; b_acc : A; b_epochs : nat }.
 
 Section Run.
-Context (cfg : @config F) (K : @kernels F A) (lip : list F).
+Context (cfg : @config F) (K : @kernels F A) (lip : list F) (ng : nat).   (* ng = number of groups = len(penalty.grp_ptr) - 1 *)
 
-Let p := n_features cfg.                      (* = number of groups in the mock world (singleton groups) *)
+Let p := n_features cfg.
 Notation wp := (wp cfg).
-Definition all_groups : list Z := zrange 0 (Z.of_nat p).
+Definition all_groups : list Z := zrange 0 (Z.of_nat ng).
 (* the literal 0.3: it only occurs in non-strict tests  score <= 0.3 * stop_crit.  Exact arithmetic takes the decision binary64
    takes, also at an exact tie (score = 3/10 * stop_crit with dyadic operands: the double product rounds to the score itself and
    the test succeeds), when 0.3 is read as a rational just above 3/10 *)
@@ -83,7 +83,7 @@ Fixpoint b_inner_loop (fuel : nat) (epoch : nat) (ws : list Z) (stop_crit : Ext 
 
 Definition bbody (s : bstate) (opt : list (Ext F)) (stop_crit : Ext F) : res bstate :=
   bind (k_gsupp K (b_w s)) (fun gs =>
-  let n_groups := Z.of_nat p in
+  let n_groups := Z.of_nat ng in
   let ws_size := Z.max (Z.min (p0 cfg) n_groups) (Z.min n_groups (2 * count_true gs)) in
   let ws := k_topk K opt (Z.to_nat ws_size) in
   bind (b_inner_loop (max_epochs cfg) 0 ws stop_crit (b_w s) (b_Xw s) (b_acc s) (b_epochs s)) (fun r =>
@@ -92,7 +92,7 @@ Definition bbody (s : bstate) (opt : list (Ext F)) (stop_crit : Ext F) : res bst
 
 End Run.
 
-Definition bsolve (cfg : @config F) (K : @kernels F A) (w_init Xw_init : option (list F)) : res (@gout F bstate) :=
+Definition bsolve (cfg : @config F) (K : @kernels F A) (ng : nat) (w_init Xw_init : option (list F)) : res (@gout F bstate) :=
   let p := n_features cfg in
   bind (match w_init with
         | None => Ok (vzeros (Z.of_nat p + (if fit_intercept cfg then 1 else 0)), vzeros (Z.of_nat (n_samples cfg)))
@@ -106,7 +106,7 @@ Definition bsolve (cfg : @config F) (K : @kernels F A) (w_init Xw_init : option 
   if negb (zlen w0 =? Z.of_nat p + (if fit_intercept cfg then 1 else 0))%Z then Err Shape
   else
   bind (k_lipschitz K) (fun lip =>
-  grun (tol cfg) (bcrit cfg K lip) (bbody cfg K lip) (bobjective cfg K) (max_iter cfg)
+  grun (tol cfg) (bcrit cfg K lip ng) (bbody cfg K lip ng) (bobjective cfg K) (max_iter cfg)
        {| b_w := w0; b_Xw := Xw0; b_acc := k_acc_init K; b_epochs := 0 |})).
 
 End Skel.
